@@ -217,7 +217,10 @@ V6 = [b"::", b"::1", b"1::", b"1:2:3:4:5:6:7:8", b"1::8", b"::ffff:1.2.3.4", b"1
       b"ffff:ffff:ffff:ffff:ffff:ffff:ffff:ffff", b"1:2::1.2.3.4", b"::ffff:01.2.3.4",
       b"", b":", b":::", b"1:::2", b"1::2::3", b"1:2:3:4:5:6:7:8:9", b"1:2:3:4:5:6:7", b"1:2:3:4:5:6:7:8:", b":1:2:3:4:5:6:7:8", b"::1:", b"1:", b":1", b"12345::", b"::g", b"::0x1", b"0x1::", b"::x1",
       b"1:2:3:4:5:6:7:1.2.3.4", b"::1.2.3", b"::1.2.3.256", b"::1.+2.3.4", b"::1. 2.3.4", b"1.2.3.4::", b"::ffff:1.2.3.4:5", b"1:2:3:4:5:6:7::8", b"1.2.3.4", b":: 1", b"::+1", b"::-1", b" ::1", b"::1 ", b"1:2:3:4:5:6::7:8",
-      b"::1.2.3.4.5", b"1::2:3:4:5:6:7:8", b"::.1.2.3", b"::1.2.3.4x"]
+      b"::1.2.3.4.5", b"1::2:3:4:5:6:7:8", b"::.1.2.3", b"::1.2.3.4x",
+      # a hexadecimal group glued to the dotted quad (decimal digits are hexadecimal digits too: the group scan runs into the quad), quads with too many digits, quad not last
+      b"::a1.2.3.4", b"::ffff:d10.0.0.1", b"1::f1.2.3.4", b"::1a.2.3.4", b"::abc1.2.3.4", b"::11.2.3.4", b"::0001.2.3.4", b"::1.2.3.4:1", b"1:2:3:4:5:6:a1.2.3.4", b"::ffff:1.2.3.4a", b"::ffff:1.2.3.a4",
+      b"::1111.2.3.4", b"a::1.2.3.4", b"::a:1.2.3.4"]
 
 
 def rule_pton(P, rid):
